@@ -327,6 +327,9 @@ def run(ctx):
     if not any("arm NodeTag" in smp.get("construct", "") for smp in rgx.samples) and "arm NodeTag" not in repr(sorted(rgx.distinct)):
         rgx.violate("NodeTag", "no NodeTag arm was compared (anchor lost)")
     rgx.require(22, "arms")
+    # the getters' `_k()` hops denote alternative k only if variant _k holds the k-th type parameter: C17's instances
+    from . import c17
+    ctx.adopt(c17.run, {"R17-PARAM": "R16-PARAM"})
     # what the getters hand out is what the content stores: container nodes keep every child that matched
     from . import store
     rst = ctx.rule("R16-STORE", "runtime container nodes (Option, sequences, choices, Positive, Push, Box, rule structs with content) return, on every "
